@@ -106,6 +106,15 @@ func vpC02_O1() {
 	case 7:
 		vpAssert("empty list rejected", !ProofList{}.Verify([]*gabikeys.PublicKey{}, ctx, nonce, issig, nil))
 		vpAssert("key count mismatch rejected", !pl.Verify(append(keys, pks[0]), ctx, nonce, issig, nil))
+		// open (nil) entries never stand for proofs: not as padding of a good list, not as a list
+		padKeys := append(append([]*gabikeys.PublicKey{}, keys...), pks[0])
+		padded := append(append(ProofList{}, pl...), nil)
+		vpAssert("list padded with an empty entry rejected", !padded.Verify(padKeys, ctx, nonce, issig, nil))
+		frontKeys := append([]*gabikeys.PublicKey{pks[1]}, keys...)
+		front := append(ProofList{nil}, pl...)
+		vpAssert("list padded with an empty entry rejected", !front.Verify(frontKeys, ctx, nonce, issig, nil))
+		vpAssert("list of empty entries rejected", !ProofList{nil}.Verify([]*gabikeys.PublicKey{pks[0]}, ctx, nonce, issig, nil))
+		vpAssert("list of empty entries rejected", !ProofList{nil, nil}.Verify(pks, ctx, nonce, issig, nil))
 	case 8: // splice: first proof replaced by the proof of another session of the same builders' owner
 		b2 := vpBuilder(7, vpChoose("kind7", 2), keys[0], sks[0], secret, ctx)
 		if keys[0] == pks[1] {
